@@ -23,3 +23,23 @@ Definition c02_source_facts : bool :=
 
 Lemma source_facts_hold : c02_source_facts = true.
 Proof. reflexivity. Qed.
+
+(* The ORDER of the calls (tools/gosrc2v kind callseq, source order) is the order of the program counters of
+   Model/CopyImpl.v (TTry, TExists, TFind, TEnd, TGo, TWait, TStart, TPush; KOuter: End, Go over [root], Start) and
+   of the phases of Model/CopySpec.v (ExQ; NeedFetch..MF2; Waiting; Rdy / MtRdy; F1, F2, Pushing, Closing; PostP):
+     copyGraph.fn : TryCommit, [deferred close(done)], dst.Exists, OnCopySkipped, FindSuccessors,
+                    removeForeignLayers, region.End, syncutil.Go, TryCommit (wait loop), region.Start,
+                    proxy.Cache.Exists, copyNode | mountOrCopyNode;  copyGraph itself ends with syncutil.Go(root)
+     copyNode     : PreCopy, doCopyNode, PostCopy          doCopyNode : src.Fetch, (deferred) rc.Close, dst.Push *)
+Local Open Scope string_scope.
+Lemma source_call_order_holds :
+  c02_calls_copygraph =
+    [b "tracker.TryCommit"; b "close"; b "dst.Exists"; b "opts.OnCopySkipped"; b "opts.FindSuccessors";
+     b "removeForeignLayers"; b "region.End"; b "syncutil.Go"; b "tracker.TryCommit"; b "region.Start";
+     b "proxy.Cache.Exists"; b "copyNode"; b "mountOrCopyNode"; b "syncutil.Go"] /\
+  c02_calls_extendedcopygraph =
+    [b "findRoots"; b "semaphore.NewWeighted"; b "cas.NewProxyWithLimit"; b "status.NewTracker"; b "syncutil.Go";
+     b "region.End"; b "copyGraph"; b "region.Start"] /\
+  c02_calls_copynode = [b "opts.PreCopy"; b "doCopyNode"; b "opts.PostCopy"] /\
+  c02_calls_docopynode = [b "src.Fetch"; b "newCopyError"; b "rc.Close"; b "dst.Push"; b "newCopyError"].
+Proof. repeat split; reflexivity. Qed.
